@@ -19,3 +19,6 @@ prop("C10", "other", "x", "x", "x", ["x"], "x")
 prop("C11", "other", "x", "x", "x", ["x"], "x")
 prop("C13", "other", "x", "x", "x", ["x"], "x")
 prop("C15", "other", "x", "x", "x", ["x"], "x")
+prop("C03", "translation_validation", "x", "x", "x", ["x"], "x")
+prop("C04", "translation_validation", "x", "x", "x", ["x"], "x")
+prop("C18", "translation_validation", "x", "x", "x", ["x"], "x")
